@@ -175,6 +175,24 @@ def _parse_tlc(r):
                 r.coverage_zero.append(mm.group(1))
 
 
+def simulate_timeboxed(o, family, module, cfg, seconds, *, depth=120, seed=1, workers=4):
+    """TLC -simulate of a design spec for a fixed wall time; every invariant is evaluated in every visited state.
+    A violation is a problem of the design spec (exit 2), never a verdict about the implementation."""
+    r = tlc(o.pid, family, module, cfg, simulate="num=1000000000", depth=depth, seed=seed, workers=workers, timeout=seconds)
+    if r.violation or r.error:
+        raise Infra("simulation of %s/%s found a design-spec problem: %s\n%s" % (module, cfg, r.summary(), r.out[-3000:]))
+    st = tr = 0
+    for m in re.finditer(r"Progress: (\d+) states checked, (\d+) traces generated", r.out):
+        st, tr = int(m.group(1)), int(m.group(2))
+    m = re.search(r"The number of states generated: (\d+)", r.out)
+    if m:
+        st = max(st, int(m.group(1)))
+    if st == 0:
+        raise Infra("simulation of %s/%s made no progress: %s" % (module, cfg, r.out[-1500:]))
+    o.add_sim(cfg, st, tr, r.wall)
+    return st, tr
+
+
 def tagged_prints(r, tag):
     """Lines printed by PrintT("@@TAG@@" \\o json): a TLA+ string literal on one line."""
     out = []
@@ -470,8 +488,14 @@ class Outcome:
     def add_mc(self, cfg, r, complete=True):
         self.states += r.distinct
         self.transitions += r.generated
-        self.mc_runs.append({"config": cfg, "distinct": r.distinct, "generated": r.generated, "depth": r.depth,
+        self.mc_runs.append({"config": cfg, "mode": "bfs", "distinct": r.distinct, "generated": r.generated, "depth": r.depth,
                              "wall_s": round(r.wall, 1), "complete": bool(complete)})
+
+    def add_sim(self, cfg, states, traces, wall):
+        self.states += states
+        self.transitions += states
+        self.mc_runs.append({"config": cfg, "mode": "simulate (time-boxed, every invariant evaluated in every visited state)",
+                             "states_checked": states, "behaviours": traces, "wall_s": round(wall, 1), "complete": False})
 
 
 def run_schedules(pid, pkg, test, schedules, *, tag="main", env=None, timeout=1800, race=False):
@@ -531,21 +555,25 @@ def conformance(o, family, module, cfg, pkg, schedules, *, test="TestExec", tag=
             seen_sched.append((sid, ti, pos, reason))
     reported = 0
     known_hit = {}
+    unreproduced = []
     for (sid, ti, pos, reason) in seen_sched:
         if reported >= max_report and len(known_hit) > 0 and reported >= max_report:
             break
         sched = schedules[sid]
-        # reproduce (several attempts: schedules with unlogged Go-side choices may need them)
+        # reproduce: the schedule is re-executed 8 times in a fresh process (unlogged Go-side choices such as map
+        # iteration order may need several attempts); only a reproduced rejection counts
         rep = None
-        for attempt in range(3):
-            t2, s2, _ = run_schedules(pid, pkg, test, [sched], tag=tag + "_re", env=env, timeout=exec_timeout)
-            v2 = validate_traces(pid, family, module, cfg, t2, timeout=tv_timeout, dfs=dfs)
-            if v2.rejected:
-                rep = (t2, v2)
-                break
+        t2, s2, _ = run_schedules(pid, pkg, test, [sched] * 8, tag=tag + "_re", env=env, timeout=exec_timeout)
+        v2 = validate_traces(pid, family, module, cfg, t2, timeout=tv_timeout, dfs=dfs)
+        if v2.rejected:
+            rep = (t2, v2)
         if rep is None:
-            raise Infra("rejection of schedule %d (%s at event %d) did not reproduce on re-execution: %s"
-                        % (sid, reason, pos, json.dumps(traces[ti])[:1500]))
+            unreproduced.append((sid, pos, reason, traces[ti]))
+            if len(unreproduced) >= 6 or len(unreproduced) >= len(seen_sched):
+                u = unreproduced[0]
+                raise Infra("%d rejected schedule(s) did not reproduce on re-execution (first: schedule %d, %s at event %d): %s"
+                            % (len(unreproduced), u[0], u[2], u[1], json.dumps(u[3])[:1500]))
+            continue
         t2, v2 = rep
         bad = t2[v2.rejected[0][0]]
         bpos, breason = v2.rejected[0][1], v2.rejected[0][2]
@@ -584,7 +612,8 @@ def finish(o, level, rule, assumptions, extra_cov=None):
         "schedules_executed": o.schedules,
         "evaluations": o.traces, "distinct_nontrivial": len(o.distinct_keys),
         "rule": rule, "samples": o.samples[:6] or [{"note": "no samples"}],
-        "mc_runs": o.mc_runs, "exhaustive": bool(o.mc_runs) and all(m["complete"] for m in o.mc_runs),
+        "mc_runs": o.mc_runs,
+        "exhaustive": bool([m for m in o.mc_runs if m.get("mode") == "bfs"]) and all(m["complete"] for m in o.mc_runs if m.get("mode") == "bfs"),
         "known_findings_reported": [k for k, _ in o.known], "selftests": o.selftests, "notes": o.notes,
     }
     cov.update(o.extra)
